@@ -10,13 +10,13 @@ ALL = [f"C{i:02d}" for i in range(1, 21)]
 LEVELS = {
  "C01": "PROVED over model/Engine.v (tied to /repo by a commit-level correspondence on every run): a crash leaves exactly a prefix of a delivery's commits; the claim/plan window is recovered and re-planned with the merged upstream data; synthetic stages are created atomically with their parent's plan in every handler; every commit before the crash and of the recovery is a legal status change. PARTIAL: 'same outcome as the uninterrupted run / only the in-flight step re-executed' has no theorem (token invariant not proved) - decided by crash-at-every-commit runs + monitors.",
  "C02": "PROVED over model/Engine.v: a processed message is never handled again (state frame) for every state; no non-jump commit re-arms a started stage; completed statuses survive every non-jump step; a step executes only a task that was RUNNING when read. PARTIAL: 'same final outcome under every reordering' has no theorem - decided by schedules + monitors.",
- "C03": "PROVED: evaluate_readiness = READY iff the join condition, for all five join types and upstream lists of any length (model tied by an exhaustive differential); in ANY StartStage handling NOT_STARTED->RUNNING is written only with the bypass flag or the join condition over the statuses read; RunTask executes only RUNNING tasks; a parent's tasks start only after its before stages.",
+ "C03": "PROVED: evaluate_readiness = READY iff the join condition, for all five join types and upstream lists of any length (model tied by an exhaustive differential); in ANY StartStage handling NOT_STARTED->RUNNING is written only with the bypass flag or the join condition over the statuses read; RunTask executes only RUNNING tasks; a parent's tasks start only after its before stages; a StartStage handling writes a synthetic child only when its parent has started.",
  "C04": "PROVED over model/Conc.v (statement-level interleavings of any number of workers, tied by real threads under a statement scheduler): one claim per stage, the loser writes nothing, snapshots never newer than the row, join-bump safety. PARTIAL: liveness of a join bumped by several concurrent writers; two witnesses are _refuted theorems (known finding F8).",
  "C05": "PROVED: the final-status decision (SUCCEEDED only if all continuable or the STOPPED branch - the full statement is _refuted, known finding; TERMINAL / CANCELED reported; final is completed), determine_status never finished while core work or after-stages are unfinished, and the engine stores exactly these functions' results (models tied by exhaustive differentials). PARTIAL: 'queue empty => finished or waiting' has no theorem - decided by engine schedules + monitors at quiescence.",
  "C06": "PROVED: the published table (regenerated from the source) gives completed statuses no exit; every commit of every non-jump delivery (complete, un-acked or cut by a crash), recovery sweep and request is a legal transition for workflow, stages and tasks (premise 'RUNNING task => RUNNING stage' for suspending tasks only; unconditional whole-run theorem for non-suspending non-jumping tasks); added rows are fresh. PARTIAL: that premise as an inductive invariant (checked on every visited state).",
  "C10": "PROVED: a recovery sweep only appends queue rows (no status, mark, claim or ledger change) and is a legal no-op; it leaves a parent waiting for its before stages alone. PARTIAL: 'healthy sweep changes no outcome / second sweep adds nothing' - decided by sweeps injected before every step + monitors; known finding F9.",
  "C17": "PROVED over model/Engine.v for every action list: once the cancel flag is durable no task executes; CancelWorkflow sets it and sends CancelStage to every unfinished stage; a jump after cancel re-arms nothing. PARTIAL: 'every unfinished stage ends CANCELED and the workflow reaches a final status' - decided by cancel-before-every-step runs + monitors.",
- "C18": "PROVED over model/Engine.v: a persistent signal is delivered or buffered in one commit with its processed mark; a transient one on a non-suspended stage changes nothing; suspend consumes exactly one buffered signal; no other handler writes a SUSPENDED stage. PARTIAL: the counting statement over whole runs and the two-worker race (F8, C04).",
+ "C18": "PROVED over model/Engine.v: a persistent signal is delivered or buffered in one commit with its processed mark; a transient one on a non-suspended stage changes nothing; suspend consumes exactly one buffered signal; no other handler writes a SUSPENDED stage; no stage write of a JumpToStage / RestartStage handling changes a stage's buffered signals. PARTIAL: the counting statement over whole runs and the two-worker race (F8, C04).",
 }
 
 PENDING_REASON = "check not built yet in this round (planned: see DESIGN.md section 6); no claim is made"
